@@ -184,6 +184,13 @@ class Exec(ExprMixin, CallMixin):
         c = simp(cond)
         if z3.is_true(c):
             return
+        tc = getattr(self, "top_contract", None)
+        if tc is not None and tc.opts.get("dynamic_type_errors") == "raise" and what.startswith("type("):
+            # opt-in (contract option dynamic_type_errors="raise"): a dynamically typed value of the wrong type is not
+            # excluded by an obligation but followed as what Python does -- TypeError/AttributeError, modelled as
+            # TypeError (the function must then declare it, or an ancestor class, in raises=[...])
+            self.maybe_raise(c, "TypeError", lineno)
+            return
         self.oblige("safe", c, lineno, note=what, label=f"safe.{what.split()[0]}@L{lineno}")
         self.assume(c)
 
